@@ -12,9 +12,9 @@ OBS.append(Ob(['C19', 'C06', 'C03'], 'strnode_len2', 'pool_s1_c16_i4', 'harness/
 PU = 'pool_s1_c16_i4'
 OBS += [
  Ob(['C06', 'C05', 'C19'], 'strnode_resize', PU, 'harness/pool.c', 'h_strnode_resize', defs=['UNIT_H="%s.h"' % PU], unwind=4, cap=100, desc='StringNode::resize: success stores the new length; failure (length above maximum or allocator failure) releases the old node exactly once', bound='new length symbolic over all of size_t, old length 0..7, allocator may fail'),
- Ob(['C19', 'C06', 'C14'], 'widths', PU, 'harness/pool.c', 'h_widths', defs=['UNIT_H="%s.h"' % PU], unwind=2, cap=60, desc='reference counter width == slot id width', bound='configuration constant'),
- Ob(['C05', 'C04', 'C06', 'C19'], 'pool_clear_inline', PU, 'harness/pool.c', 'h_pool_clear', defs=['UNIT_H="%s.h"' % PU, 'HEAPT=0'], unwind=6, cap=200, hunwind=12, desc='MemoryPoolList::clear from any valid inline-table state: empty, inline table, inline capacity, heap table released once', bound='every (count <= 3, capacity, free list) satisfying the invariant'),
- Ob(['C05', 'C04', 'C06', 'C19'], 'pool_clear_heap', PU, 'harness/pool.c', 'h_pool_clear', defs=['UNIT_H="%s.h"' % PU, 'HEAPT=1'], unwind=6, cap=200, hunwind=12, desc='MemoryPoolList::clear from any valid heap-table state: empty, inline table, inline capacity, heap table released once', bound='every (count <= 3, capacity, free list) satisfying the invariant'),
+ Ob(['C19', 'C06', 'C14', 'C03'], 'widths', PU, 'harness/pool.c', 'h_widths', defs=['UNIT_H="%s.h"' % PU], unwind=2, cap=60, desc='reference counter width == slot id width', bound='configuration constant'),
+ Ob(['C05', 'C04', 'C06', 'C19', 'C03'], 'pool_clear_inline', PU, 'harness/pool.c', 'h_pool_clear', defs=['UNIT_H="%s.h"' % PU, 'HEAPT=0'], unwind=6, cap=200, hunwind=12, desc='MemoryPoolList::clear from any valid inline-table state: empty, inline table, inline capacity, heap table released once', bound='every (count <= 3, capacity, free list) satisfying the invariant'),
+ Ob(['C05', 'C04', 'C06', 'C19', 'C03'], 'pool_clear_heap', PU, 'harness/pool.c', 'h_pool_clear', defs=['UNIT_H="%s.h"' % PU, 'HEAPT=1'], unwind=6, cap=200, hunwind=12, desc='MemoryPoolList::clear from any valid heap-table state: empty, inline table, inline capacity, heap table released once', bound='every (count <= 3, capacity, free list) satisfying the invariant'),
  Ob(['C04', 'C06'], 'pool_swap', PU, 'harness/pool.c', 'h_pool_swap', defs=['UNIT_H="%s.h"' % PU], unwind=8, cap=200, hunwind=12, desc='swap(MemoryPoolList, MemoryPoolList) on inline tables: counts, free lists and pool descriptors exchanged', bound='counts 0..2, all free-list heads'),
 ]
 for un_, tier_ in [('pool_s1_c10_i4', 'quick'), ('pool_s1_c16_i4', 'quick')]:
